@@ -528,10 +528,16 @@ func (s *c04State) oracles(e *c04Emitted) {
 	c, id, p, h := s.c, e.id, e.prog, e.hist
 	if h.Hung {
 		var ks []string
+		sig := "deadlock"
 		for _, cl := range h.Calls {
 			ks = append(ks, c04Kind(cl.Item))
+			if cl.Res == "panic" {
+				// a recovered panic left a mutex locked (e.g. unRegisterWithParent panics between
+				// parent.Lock and parent.Unlock): the next call that needs it never returns
+				sig = "deadlock:after-panic"
+			}
 		}
-		c.Oracle("FAIL %s deadlock:%s a call did not return within 3s", id, c04Sig(ks))
+		c.Oracle("FAIL %s %s a call did not return within 3s; calls that did return: %s", id, sig, c04Sig(ks))
 		c.Add("fail.deadlock", e.count)
 		return
 	}
